@@ -280,9 +280,11 @@ def judge(case, verdict, detail, obs):
         if obs["outcome"] != "raised":
             out.append(("no-error-on-failed-check", dict(sig, failed=failed[0]), obs["outcome"], "SSLError"))
         else:
+            # SSLError (possibly as MaxRetryError.reason); wrapped in ProxyError only when the check that failed is the
+            # proxy's own certificate - an origin that fails its check inside an established tunnel is not a proxy fault
             ok_types = isinstance(e, SSLError) or (isinstance(e, MaxRetryError) and isinstance(e.reason, SSLError)) or \
-                (isinstance(e, ProxyError) and any(isinstance(a, SSLError) for a in e.args)) or \
-                (isinstance(e, MaxRetryError) and isinstance(e.reason, ProxyError))
+                (proxy_leg_bad and ((isinstance(e, ProxyError) and any(isinstance(a, SSLError) for a in e.args)) or
+                                    (isinstance(e, MaxRetryError) and isinstance(e.reason, ProxyError))))
             if not ok_types:
                 out.append(("wrong-exception-on-failed-check", dict(sig, failed=failed[0], exc=type(e).__name__), "%s: %s" % (type(e).__name__, str(e)[:150]),
                             "urllib3 SSLError (possibly as MaxRetryError.reason / inside ProxyError)"))
